@@ -15,6 +15,7 @@ pub struct ReMatcher<'a> {
     pub case_mapper: CaseMapper,
 }
 
+pub uninterp spec fn cleared_beyond(m: &ReMatcher, pos: int) -> bool;
 impl<'a> ReMatcher<'a> {
     pub uninterp spec fn st_start_backref(&self) -> Seq<Option<usize>>;
     pub uninterp spec fn st_end_backref(&self) -> Seq<Option<usize>>;
@@ -43,7 +44,12 @@ impl<'a> ReMatcher<'a> {
     #[verifier::external_body]
     pub fn set_paren_start(&self, group_nr: usize, position: usize) { unimplemented!() }
     #[verifier::external_body]
-    pub fn clear_captured_groups_beyond(&self, pos: usize) { unimplemented!() }
+    pub fn clear_captured_groups_beyond(&self, pos: usize)
+        // the state itself is opaque here; `cleared_beyond` only records, within one function body, THAT the call has
+        // been made for this position (used by unit `choice`: a branch is started after the groups captured by the
+        // branch given up have been discarded)
+        ensures cleared_beyond(self, pos as int),
+    { unimplemented!() }
 }
 
 // capture-state snapshot / restore through the RefCell: opaque here (unit `state` has the contracts)
